@@ -69,6 +69,7 @@ def string_stream(rng, n):
     alphabet = list("abzAZ09_- \t.$<>/\\'\"é²日🙂") + ["class", "def", "self", "__init__", "None", "items"]
     out = ["", "class", "def", "_dict", "__class__", "a b", "a-b", "a_b", "a\tb", "class_", "None", "1abc", "日本", "a²", "$ref", "<", "foo bar",
            "fooBar", "foo_bar", "FOO", "string", "object", "list", "x" * 40, "__", "-", " ", "a  b", "a__b", "match", "_", "Ünï"]
+    out += sorted(dir(object)) + ["__dict__", "__weakref__", "__module__", "__slots__"] + list(keyword.kwlist)
     for _ in range(n):
         out.append("".join(rng.choice(alphabet) for _ in range(rng.randint(1, 6))))
     return out
@@ -98,8 +99,9 @@ def run(tier, seed, replay=None):
         why = None
         if not xid_ok(a):
             why = "attribute name %r is not a usable identifier" % a
-        elif a in RESERVED_PROPERTIES:
-            why = "attribute name %r is a reserved attribute" % a
+        elif a in RESERVED_PROPERTIES or hasattr(object(), a) or keyword.iskeyword(a) or a in ("_dict", "__dict__", "__weakref__"):
+            # read off the interpreter, not off the library's own list: an attribute every instance already has (or cannot take)
+            why = "attribute name %r is a reserved attribute (an attribute of every object / a keyword / the model's own storage)" % a
         if why:
             if k2(n):
                 stats["k2_names"] += 1
